@@ -391,12 +391,16 @@ impl GitignoreBuilder {
             Ok(file) => file,
         };
         log::debug!("opened gitignore file: {}", path.display());
-        let rdr = BufReader::new(file);
+        let mut rdr = BufReader::new(file);
         let mut errs = PartialErrorBuilder::default();
-        for (i, line) in rdr.lines().enumerate() {
-            let lineno = (i + 1) as u64;
-            let line = match line {
-                Ok(line) => line,
+        let mut buf = String::new();
+        let mut lineno = 0;
+        loop {
+            lineno += 1;
+            buf.clear();
+            match rdr.read_line(&mut buf) {
+                Ok(0) => break,
+                Ok(_) => {}
                 Err(err) => {
                     // A line that is not valid UTF-8 cannot be used as a
                     // glob, but the reader has consumed it, so the lines
@@ -409,12 +413,16 @@ impl GitignoreBuilder {
                     }
                     break;
                 }
-            };
+            }
+            // The line terminator is not part of the line. Like git, a last
+            // line without a line feed is read as if it had one, so a
+            // carriage return in front of it goes away with it.
+            let mut line = buf.strip_suffix('\n').unwrap_or(&buf);
+            line = line.strip_suffix('\r').unwrap_or(line);
             // Like git, skip a UTF-8 byte order mark at the start of the file.
-            let line = match line.strip_prefix('\u{FEFF}') {
-                Some(rest) if i == 0 => rest,
-                _ => line.as_str(),
-            };
+            if lineno == 1 {
+                line = line.strip_prefix('\u{FEFF}').unwrap_or(line);
+            }
             if let Err(err) = self.add_line(Some(path.to_path_buf()), line) {
                 errs.push(err.tagged(path, lineno));
             }
